@@ -83,6 +83,7 @@ SpecResult(ev) ==
     [] ev.op = "add_assertion_envelope" -> AddAssertionEnv(reg[a[1]], reg[a[2]])
     [] ev.op = "remove_assertion"       -> Ok(RemoveAssertion(reg[a[1]], reg[a[2]]))
     [] ev.op = "remove_present"         -> Ok(RemoveAssertion(reg[a[1]], Elided(IdTerm(a[2]))))
+    [] ev.op = "replace_present"        -> ReplaceAssertion(reg[a[1]], Elided(IdTerm(a[2])), reg[a[3]])
     [] ev.op = "replace_subject"        -> Ok(ReplaceSubject(reg[a[1]], reg[a[2]]))
     [] ev.op = "wrap"                   -> Ok(WrapEnvelope(reg[a[1]]))
     [] ev.op = "unwrap"                 -> UnwrapEnvelope(reg[a[1]])
@@ -127,6 +128,8 @@ Call(ev)  ==
        /\ Dg(Val(r)) = Dg(got) \/ ev.op \in {"add_salt", "encrypt_subject", "elide_set"}
        /\ WellFormed(got)
        /\ Consistent(P)
+       /\ ev.extra.sorted        \* stored assertion order strictly ascending at every node (C04)
+       /\ ev.extra.reencode      \* decodes back from its own bytes to an identical envelope (C05)
        /\ ev.op = "add_salt" => SaltLenOK(ev.extra.size, ev.extra.len)
        /\ reg' = [reg EXCEPT ![ev.dst] = got]
        /\ dmap' = Extend(dmap, P, 1, 2)
